@@ -707,7 +707,7 @@ Qed.
 
 Lemma Inv_run_thunk : forall fl cfg s t, Inv none s -> Inv none (fst (run_thunk fl cfg s t)).
 Proof.
-  intros fl cfg s t H. destruct t as [l| |o sidv|o]; simpl.
+  intros fl cfg s t H. destruct t as [l| |o sidv|o|raised]; simpl.
   - now apply Inv_run_leaf.
   - destruct (u_connect cfg); [|assumption]. destruct (sid_truthy s); [assumption|].
     destruct (negb (transport s)); [assumption|].
@@ -727,6 +727,7 @@ Proof.
       * destruct fl; [assumption | now apply Inv_challenge_failed].
     + destruct fl; [assumption | now apply Inv_challenge_failed].
     + now apply Inv_challenge_failed.
+  - pose proof (Inv_errback_all fl cfg ETransportLost s H) as H1. destruct (errback_all fl cfg s ETransportLost) as [s1 o1]. exact H1.
 Qed.
 
 Lemma Inv_defer : forall fl cfg s t, Inv none s -> Inv none (fst (defer fl cfg s t)).
@@ -880,8 +881,8 @@ Proof.
               else (s0, [])) as [s3 o3]. simpl in H3.
     pose proof (Inv_do_onDisconnect fl cfg s3 H3) as H4.
     destruct (do_onDisconnect fl cfg s3) as [[s4 o4] raised]. simpl in H4.
-    pose proof (Inv_defer_leaf fl cfg none s4 (LDiscK raised) H4) as H5.
-    destruct (defer_leaf fl cfg s4 (LDiscK raised)) as [s5 o5]. exact H5.
+    pose proof (Inv_defer fl cfg s4 (TDiscK raised) H4) as H5.
+    destruct (defer fl cfg s4 (TDiscK raised)) as [s5 o5]. exact H5.
   - (* OTurn *)
     destruct fl; [assumption|]. apply Inv_run_queue. eapply Inv_ext; [|exact H]. reflexivity.
   - (* ACall *) now apply Inv_api_step.
@@ -1456,7 +1457,6 @@ Proof.
   - destruct (sdetails s); [|apply NR_refl]. destruct (u_join_raises cfg); [destruct fl|]; apply NR_quiet; reflexivity.
   - destruct raised; apply NR_quiet; reflexivity.
   - destruct (transport s); apply NR_quiet; reflexivity.
-  - destruct raised; apply NR_quiet; reflexivity.
   - destruct (transport s); [|apply NR_quiet; reflexivity].
     pose proof (send_nr cfg s (MCancel id) eq_refl) as Hs. destruct (send cfg s (MCancel id)) as [o ok]. simpl in *.
     apply NR_quiet; [rewrite request_ids_app, Hs; destruct ok; reflexivity | reflexivity].
@@ -1513,7 +1513,7 @@ Qed.
 
 Lemma NR_run_thunk : forall fl cfg s t, NR s (fst (run_thunk fl cfg s t)) (snd (run_thunk fl cfg s t)).
 Proof.
-  intros fl cfg s t. destruct t as [l| |o sidv|o]; simpl.
+  intros fl cfg s t. destruct t as [l| |o sidv|o|raised]; simpl.
   - apply NR_run_leaf.
   - destruct (u_connect cfg); [|apply NR_quiet; reflexivity]. destruct (sid_truthy s); [apply NR_quiet; reflexivity|].
     destruct (negb (transport s)); [apply NR_quiet; reflexivity|].
@@ -1539,6 +1539,8 @@ Proof.
       * destruct fl; [apply NR_refl | apply NR_challenge_failed].
     + destruct fl; [apply NR_refl | apply NR_challenge_failed].
     + apply NR_challenge_failed.
+  - pose proof (NR_errback_all fl cfg s ETransportLost) as H1. destruct (errback_all fl cfg s ETransportLost) as [s1 o1].
+    simpl in *. apply NR_out_r; [exact H1 | destruct raised; reflexivity].
 Qed.
 
 Lemma NR_defer : forall fl cfg s t, NR s (fst (defer fl cfg s t)) (snd (defer fl cfg s t)).
@@ -1652,7 +1654,7 @@ Proof.
                    let '(s2, o2) := defer_leaf fl cfg s1 (LLeaveK raised) in (set_sid s2 None, o1 ++ o2)
               else (s0, [])) as [s3 o3]. simpl in H3.
     pose proof (NR_do_onDisconnect fl cfg s3) as H4. destruct (do_onDisconnect fl cfg s3) as [[s4 o4] raised]. simpl in H4.
-    pose proof (NR_defer_leaf fl cfg s4 (LDiscK raised)) as H5. destruct (defer_leaf fl cfg s4 (LDiscK raised)) as [s5 o5].
+    pose proof (NR_defer fl cfg s4 (TDiscK raised)) as H5. destruct (defer fl cfg s4 (TDiscK raised)) as [s5 o5].
     simpl in *. eapply NR_trans; [exact H3|]. eapply NR_trans; eassumption.
   - destruct fl; [apply NR_refl|]. eapply NR_from; [|apply NR_run_queue]. reflexivity.
   - (* AUnsubscribe *) apply NR_unsub_step.
@@ -2004,7 +2006,6 @@ Proof.
   intros cfg s l Hl. destruct l; try contradiction; simpl.
   - destruct raised; split; reflexivity.
   - destruct (transport s) eqn:Et; split; try reflexivity. unfold lcore. simpl. rewrite Et. reflexivity.
-  - destruct raised; split; reflexivity.
   - destruct (transport s); [|split; reflexivity].
     assert (Hm : forall r, MCancel id <> MGoodbye r) by (intros r E; discriminate).
     pose proof (send_lq cfg s (MCancel id) Hm) as Hs. destruct (send cfg s (MCancel id)) as [o ok]. simpl in *.
@@ -2040,6 +2041,17 @@ Proof.
   simpl in *. split; [rewrite A1; reflexivity | assumption].
 Qed.
 
+Lemma tx_disc_then : forall cfg s,
+  let r := (let '(s4, o4, raised) := do_onDisconnect Tx cfg s in
+            let '(s5, o5) := defer Tx cfg s4 (TDiscK raised) in (s5, o4 ++ o5)) in
+  levs (snd r) = [LvDisconnect] /\ lcore (fst r) = lcore s.
+Proof.
+  intros cfg s. pose proof (tx_onDisconnect cfg s) as [A B]. destruct (do_onDisconnect Tx cfg s) as [[s4 o4] raised].
+  simpl in A, B. simpl.
+  pose proof (LQ_errback_all Tx cfg s4 ETransportLost) as [A1 B1]. destruct (errback_all Tx cfg s4 ETransportLost) as [s5 o5].
+  simpl in *. rewrite !levs_app, A, A1. split; [destruct raised; reflexivity | congruence].
+Qed.
+
 Theorem tx_step_spec : forall cfg s o,
   levs (snd (step Tx cfg s o)) = spec_levs cfg s o /\ lcore (fst (step Tx cfg s o)) = spec_lcore cfg s o.
 Proof.
@@ -2066,13 +2078,15 @@ Proof.
     + pose proof (tx_leave_then cfg s0 RsTransportLost) as [A B].
       destruct (do_onLeave Tx cfg s0 RsTransportLost) as [[s1 o1] raised].
       destruct (defer_leaf Tx cfg s1 (LLeaveK raised)) as [s2 o2]. simpl in A, B.
-      pose proof (tx_onDisconnect cfg (set_sid s2 None)) as [A4 B4].
-      destruct (do_onDisconnect Tx cfg (set_sid s2 None)) as [[s4 o4] raised4]. simpl in A4, B4.
-      destruct raised4; simpl; rewrite levs_app, A, levs_app, A4; (split; [reflexivity|]); rewrite B4;
+      pose proof (tx_disc_then cfg (set_sid s2 None)) as [A4 B4].
+      destruct (do_onDisconnect Tx cfg (set_sid s2 None)) as [[s4 o4] raised4].
+      destruct (defer Tx cfg s4 (TDiscK raised4)) as [s5 o5]. cbn [fst snd] in *.
+      rewrite levs_app, A, A4; (split; [reflexivity|]); rewrite B4;
         unfold lcore in *; simpl in *; inversion B; reflexivity.
-    + pose proof (tx_onDisconnect cfg s0) as [A4 B4].
-      destruct (do_onDisconnect Tx cfg s0) as [[s4 o4] raised4]. simpl in A4, B4.
-      destruct raised4; simpl; rewrite levs_app, A4; (split; [reflexivity|]); rewrite B4; reflexivity.
+    + pose proof (tx_disc_then cfg s0) as [A4 B4].
+      destruct (do_onDisconnect Tx cfg s0) as [[s4 o4] raised4].
+      destruct (defer Tx cfg s4 (TDiscK raised4)) as [s5 o5]. cbn [fst snd] in *.
+      rewrite app_nil_l, A4; (split; [reflexivity|]); rewrite B4; reflexivity.
   - (* OTurn *) split; reflexivity.
   - (* ALeave *)
     unfold step. cbv beta iota. unfold spec_levs, spec_lcore, send_ok, lcore.
@@ -2556,7 +2570,6 @@ Proof.
   - destruct (sdetails s); [|reflexivity]. destruct (u_join_raises cfg); [destruct fl|]; reflexivity.
   - destruct raised; reflexivity.
   - destruct (transport s); reflexivity.
-  - destruct raised; reflexivity.
   - destruct (transport s); [|reflexivity]. pose proof (pe_send cfg s (MCancel id)) as Hs.
     destruct (send cfg s (MCancel id)) as [o ok]. simpl in *. apply pe_app; [assumption | destruct ok; reflexivity].
   - destruct (transport s); [|reflexivity]. pose proof (pe_send cfg (set_invs s (remove1 rq (invs s))) (MYield rq)) as Hs.
@@ -2604,7 +2617,7 @@ Qed.
 
 Lemma pe_run_thunk : forall fl cfg s t, pe_only (snd (run_thunk fl cfg s t)).
 Proof.
-  intros fl cfg s t. destruct t as [l| |o sidv|o]; simpl.
+  intros fl cfg s t. destruct t as [l| |o sidv|o|raised]; simpl.
   - apply pe_run_leaf.
   - destruct (u_connect cfg); [|reflexivity]. destruct (sid_truthy s); [reflexivity|].
     destruct (negb (transport s)); [reflexivity|]. pose proof (pe_send cfg (set_join s) MHello) as Hs.
@@ -2626,6 +2639,8 @@ Proof.
       * destruct fl; [reflexivity | apply pe_challenge_failed].
     + destruct fl; [reflexivity | apply pe_challenge_failed].
     + apply pe_challenge_failed.
+  - pose proof (pe_errback_all fl cfg s ETransportLost) as H1. destruct (errback_all fl cfg s ETransportLost) as [s1 o1].
+    simpl in *. apply pe_app; [exact H1 | destruct raised; reflexivity].
 Qed.
 
 Lemma pe_defer : forall fl cfg s t, pe_only (snd (defer fl cfg s t)).
@@ -2719,7 +2734,7 @@ Proof.
                    let '(s2, o2) := defer_leaf fl cfg s1 (LLeaveK raised) in (set_sid s2 None, o1 ++ o2)
               else (s0, [])) as [s3 o3]. simpl in H3.
     pose proof (pe_do_onDisconnect fl cfg s3) as H4. destruct (do_onDisconnect fl cfg s3) as [[s4 o4] raised]. simpl in H4.
-    pose proof (pe_defer_leaf fl cfg s4 (LDiscK raised)) as H5. destruct (defer_leaf fl cfg s4 (LDiscK raised)) as [s5 o5].
+    pose proof (pe_defer fl cfg s4 (TDiscK raised)) as H5. destruct (defer fl cfg s4 (TDiscK raised)) as [s5 o5].
     simpl in *. apply pe_app; [assumption | now apply pe_app].
   - left. destruct fl; [reflexivity | apply pe_run_queue].
   - left. apply pe_unsub_step.
@@ -3212,8 +3227,39 @@ Qed.
 
 (* transport loss: with the default onDisconnect nothing stays pending, whatever the callbacks do: without a
    transport every request they try to issue is refused *)
+(* the end of onClose: onDisconnect (the default sweeps), then -- in the continuation, i.e. at once on Twisted -- the
+   final sweep that does not depend on the user's overrides *)
+Lemma disc_then_clears : forall fl cfg s, transport s = false -> (fl = Tx \/ u_disc_super cfg = true) ->
+  let s' := fst (let '(s4, o4, raised) := do_onDisconnect fl cfg s in
+                 let '(s5, o5) := defer fl cfg s4 (TDiscK raised) in (s5, o4 ++ o5)) in
+  transport s' = false /\ pend s' = []
+  /\ (forall r, In r (pend s) -> is_done s' (r_fut r) = true)
+  /\ (forall x y, In (x, y) (done s) -> In (x, y) (done s'))
+  /\ (forall x y, In (x, y) (done s') -> In (x, y) (done s) \/ y = RErr ETransportLost).
+Proof.
+  intros fl cfg s Ht Hc. unfold do_onDisconnect.
+  destruct (errback_all_spec fl cfg s ETransportLost) as [A [_ [C [D [M [L _]]]]]].
+  destruct (u_disc_super cfg) eqn:Esup.
+  - destruct (errback_all fl cfg s ETransportLost) as [s4 o4]. cbn [fst snd] in *.
+    assert (Ht4 : transport s4 = false) by (unfold lcore in L; inversion L; congruence).
+    destruct fl; cbn [defer run_thunk].
+    + destruct (errback_all_spec Tx cfg s4 ETransportLost) as [A2 [_ [C2 [D2 [M2 [L2 _]]]]]].
+      destruct (errback_all Tx cfg s4 ETransportLost) as [s5 o5]. cbn [fst snd] in *.
+      split; [unfold lcore in L2; inversion L2; congruence|]. split; [apply C2; now left|].
+      split; [|split].
+      * intros r Hr. specialize (A r Hr). apply is_done_in. apply is_done_in in A. unfold is_done in *.
+        apply in_map_iff in A. destruct A as [[x y] [E Hin]]. apply in_map_iff. exists (x, y). split; [assumption | now apply M2].
+      * intros x y H. apply M2. now apply M.
+      * intros x y H. destruct (D2 x y H) as [H1|H1]; [exact (D x y H1) | now right].
+    + cbn [fst enqueue set_queue transport pend done]. unfold is_done in *. cbn [done set_queue].
+      split; [exact Ht4|]. split; [apply C; now left|]. split; [exact A|]. split; [exact M | exact D].
+  - destruct Hc as [->|Hc]; [|discriminate]. cbn [defer run_thunk].
+    destruct (errback_all Tx cfg s ETransportLost) as [s5 o5]. cbn [fst snd] in *.
+    split; [unfold lcore in L; inversion L; congruence|]. split; [apply C; now left|]. split; [exact A|]. split; [exact M | exact D].
+Qed.
+
 Theorem lost_clears : forall fl cfg s clean,
-  transport s = true -> u_disc_super cfg = true ->
+  transport s = true -> (fl = Tx \/ u_disc_super cfg = true) ->
   let s' := fst (step fl cfg s (OLost clean)) in
   transport s' = false /\ pend s' = []
   /\ (forall r, In r (pend s) -> is_done s' (r_fut r) = true)
@@ -3254,21 +3300,16 @@ Proof.
             then let '(s1, o1, raised) := do_onLeave fl cfg s0 RsTransportLost in
                  let '(s2, o2) := defer_leaf fl cfg s1 (LLeaveK raised) in (set_sid s2 None, o1 ++ o2)
             else (s0, [])) as [s3 o3]. simpl in H3. destruct H3 as [Htr3 [Hp3 [Hm3 Hd3]]].
-  destruct (onDisconnect_clears fl cfg s3 Hsup) as [A4 [C4 [D4 Hcore4]]].
-  assert (Hm4 : forall x y, In (x, y) (done s3) -> In (x, y) (done (fst (fst (do_onDisconnect fl cfg s3))))).
-  { unfold do_onDisconnect. rewrite Hsup. destruct (errback_all_spec fl cfg s3 ETransportLost) as [_ [_ [_ [_ [M _]]]]].
-    destruct (errback_all fl cfg s3 ETransportLost) as [s4 o4]. exact M. }
-  destruct (do_onDisconnect fl cfg s3) as [[s4 o4] raised]. simpl in *.
-  pose proof (defer_leaf_ledger fl cfg s4 (LDiscK raised) I) as HL. unfold ledger in HL. inversion HL as [[L1 L2 L3 L4 L5]].
-  assert (Ht5 : transport (fst (defer_leaf fl cfg s4 (LDiscK raised))) = transport s4) by (destruct fl; destruct raised; reflexivity).
-  destruct (defer_leaf fl cfg s4 (LDiscK raised)) as [s5 o5]. simpl in *.
-  unfold is_done in *. rewrite L1, L2. repeat split.
-  - rewrite Ht5. unfold lcore in Hcore4. inversion Hcore4. congruence.
-  - apply C4. now left.
-  - intros r Hr. destruct (Hp3 r Hr) as [H|H]; [now apply A4|].
+  pose proof (disc_then_clears fl cfg s3 Htr3 Hsup) as H4.
+  destruct (do_onDisconnect fl cfg s3) as [[s4 o4] raised]. destruct (defer fl cfg s4 (TDiscK raised)) as [s5 o5].
+  cbn [fst snd] in *. destruct H4 as [T5 [P5 [A5 [M5 D5]]]].
+  repeat split.
+  - exact T5.
+  - exact P5.
+  - intros r Hr. destruct (Hp3 r Hr) as [H|H]; [now apply A5|].
     apply is_done_in. apply is_done_in in H. unfold is_done in *. apply in_map_iff in H. destruct H as [[x y] [E Hin]].
-    apply in_map_iff. exists (x, y). split; [assumption | now apply Hm4].
-  - intros x y Hin. destruct (D4 x y Hin) as [H|H]; [|auto]. destruct (Hd3 x y H); auto.
+    apply in_map_iff. exists (x, y). split; [assumption | now apply M5].
+  - intros x y Hin. destruct (D5 x y Hin) as [H|H]; [|auto]. destruct (Hd3 x y H); auto.
 Qed.
 
 (* ---------------------------------------------------------------------------------------------------------- *)
@@ -3310,7 +3351,6 @@ Proof.
   - destruct (sdetails s); reflexivity.
   - reflexivity.
   - destruct (transport s); reflexivity.
-  - reflexivity.
   - destruct (transport s); [destruct (send cfg s (MCancel id))|]; reflexivity.
   - destruct (transport s); [destruct (send cfg _ (MYield rq))|]; reflexivity.
 Qed.
@@ -3352,7 +3392,7 @@ Qed.
 
 Lemma fn_run_thunk : forall fl cfg s t, failnext (fst (run_thunk fl cfg s t)) = failnext s.
 Proof.
-  intros fl cfg s t. destruct t; simpl.
+  intros fl cfg s t. destruct t as [l| |o sidv|o|raised]; simpl.
   - apply fn_run_leaf.
   - destruct (u_connect cfg); [|reflexivity]. destruct (sid_truthy s); [reflexivity|]. destruct (negb (transport s)); [reflexivity|].
     destruct (send cfg _ MHello); reflexivity.
@@ -3368,6 +3408,7 @@ Proof.
       * destruct fl; [reflexivity | exact Hc].
     + destruct fl; [reflexivity | exact Hc].
     + exact Hc.
+  - pose proof (fn_errback_all fl cfg s ETransportLost) as H1. destruct (errback_all fl cfg s ETransportLost) as [s1 o1]. exact H1.
 Qed.
 
 Lemma fn_defer : forall fl cfg s t, failnext (fst (defer fl cfg s t)) = failnext s.
@@ -3451,7 +3492,7 @@ Proof.
                    let '(s2, o2) := defer_leaf fl cfg s1 (LLeaveK raised) in (set_sid s2 None, o1 ++ o2)
               else (s0, [])) as [s3 o3]. simpl in H3.
     pose proof (fn_do_onDisconnect fl cfg s3) as H4. destruct (do_onDisconnect fl cfg s3) as [[s4 o4] raised]. simpl in H4.
-    pose proof (fn_defer_leaf fl cfg s4 (LDiscK raised)) as H5. destruct (defer_leaf fl cfg s4 (LDiscK raised)) as [s5 o5].
+    pose proof (fn_defer fl cfg s4 (TDiscK raised)) as H5. destruct (defer fl cfg s4 (TDiscK raised)) as [s5 o5].
     simpl in *. congruence.
   - destruct fl; [exact H0|]. rewrite fn_run_queue. exact H0.
   - rewrite fn_unsub_step. exact H0.
@@ -3478,4 +3519,68 @@ Proof.
   induction ops as [|o t IH]; simpl; intros s H; [exact H|].
   pose proof (step_failnext fl cfg s o H) as H1. destruct (step fl cfg s o) as [s1 o1]. simpl in H1.
   specialize (IH s1 H1). destruct (run fl cfg s1 t) as [s2 tr]. exact IH.
+Qed.
+
+(* ---------------------------------------------------------------------------------------------------------- *)
+(* Twisted: an object without a transport has empty request tables -- in every reachable state                 *)
+(* ---------------------------------------------------------------------------------------------------------- *)
+(* (onClose sweeps whatever the user's onLeave / onDisconnect did, and nothing can be issued without a transport.)
+   Hence every life of a session object starts with empty tables: a record a router message is matched to was
+   issued in the same life, after the last (re)connect *)
+Lemma tx_step_no_transport_pend : forall cfg s o, transport s = false ->
+  transport (fst (step Tx cfg s o)) = true \/ pend (fst (step Tx cfg s o)) = pend s.
+Proof.
+  intros cfg s o Ht.
+  destruct o; try (right; reflexivity); try (right; unfold step; rewrite Ht; reflexivity);
+    try (right; match goal with |- context [step Tx cfg s ?O] => rewrite (api_after_lost Tx cfg s O Ht eq_refl) end; reflexivity).
+  - (* OOpen *) left. destruct (tx_step_spec cfg s OOpen) as [_ B]. unfold spec_lcore in B. rewrite Ht in B.
+    exact (f_equal (fun c => snd (fst (fst c))) B).
+  - (* AUnsubscribe *) right. destruct (proj1 (api_after_lost_objects Tx cfg s h Ht)) as [e E]. rewrite E. reflexivity.
+  - (* AUnregister *) right. destruct (proj2 (api_after_lost_objects Tx cfg s h Ht)) as [e E]. rewrite E. reflexivity.
+  - (* ACancel *) right. unfold step.
+    destruct (is_done s f); [reflexivity|]. destruct (assoc f (issued s)) as [[k id]|]; [|reflexivity].
+    assert (Hc : pend (fst (let '(s1, o2) := complete Tx cfg s f (RErr ECancelled) in (s1, o2 ++ [ApiReturned None]))) = pend s).
+    { pose proof (sweep_complete Tx cfg (fun _ => True) s f (RErr ECancelled) I) as Hs.
+      destruct (complete Tx cfg s f (RErr ECancelled)). simpl in *. exact (sw_quiet _ _ _ Hs Ht). }
+    destruct k; try exact Hc. rewrite Ht. reflexivity.
+  - (* ALeave *) right. unfold step. destruct (negb (sid_truthy s)); [reflexivity|]. destruct (goodbye_sent s); [reflexivity|].
+    rewrite Ht. reflexivity.
+  - (* AFail *) right. unfold step. destruct (is_fail_op o) eqn:Ef; [|reflexivity].
+    assert (Ht0 : transport (set_failnext s (Some e)) = false) by exact Ht.
+    destruct o; try discriminate Ef.
+    + rewrite (api_after_lost Tx cfg (set_failnext s (Some e)) (ACall uri a kw o) Ht0 eq_refl : api_step cfg _ _ = _). reflexivity.
+    + rewrite (api_after_lost Tx cfg (set_failnext s (Some e)) (APublish uri a kw o) Ht0 eq_refl : api_step cfg _ _ = _). reflexivity.
+    + rewrite (api_after_lost Tx cfg (set_failnext s (Some e)) (ASubscribe uri o) Ht0 eq_refl : api_step cfg _ _ = _). reflexivity.
+    + rewrite (api_after_lost Tx cfg (set_failnext s (Some e)) (ARegister uri o) Ht0 eq_refl : api_step cfg _ _ = _). reflexivity.
+    + destruct (proj1 (api_after_lost_objects Tx cfg (set_failnext s (Some e)) h Ht0)) as [x E].
+      change (unsub_step Tx cfg (set_failnext s (Some e)) h = (set_failnext s (Some e), [ApiRaised x])) in E. rewrite E. reflexivity.
+    + destruct (proj2 (api_after_lost_objects Tx cfg (set_failnext s (Some e)) h Ht0)) as [x E].
+      change (api_step cfg (set_failnext s (Some e)) (AUnregister h) = (set_failnext s (Some e), [ApiRaised x])) in E. rewrite E. reflexivity.
+  - (* AReact *) right. unfold step. destruct (is_react_op o && negb (is_done s f) && isNoneB (assoc f (reacts s))); reflexivity.
+Qed.
+
+Lemma tx_step_transport : forall cfg s o, transport s = true -> transport (fst (step Tx cfg s o)) = false -> exists c, o = OLost c.
+Proof.
+  intros cfg s o Ht Hf. destruct (tx_step_spec cfg s o) as [_ B].
+  assert (Hs : transport (fst (step Tx cfg s o)) = snd (fst (fst (spec_lcore cfg s o)))) by (rewrite <- B; reflexivity).
+  rewrite Hs in Hf. clear B Hs.
+  destruct o; unfold spec_lcore, lcore in Hf; simpl in Hf; try congruence; try (eexists; reflexivity).
+  - rewrite Ht in Hf. simpl in Hf. congruence.
+  - destruct (sid_truthy s && negb (goodbye_sent s) && transport s && send_ok cfg s); simpl in Hf; congruence.
+  - destruct (transport s && isNone (sid s) && match u_welcome cfg with WlNone => true | _ => false end); simpl in Hf; congruence.
+  - destruct (transport s && negb (isNone (sid s)) && (goodbye_sent s || send_ok cfg s)); simpl in Hf; congruence.
+Qed.
+
+Theorem tx_no_transport_no_pending : forall cfg ops,
+  transport (final Tx cfg ops) = false -> pend (final Tx cfg ops) = [].
+Proof.
+  intros cfg ops. unfold final.
+  assert (H0 : transport init = false -> pend init = []) by reflexivity. revert H0. generalize init.
+  induction ops as [|o t IH]; simpl; intros s H0; [exact H0|].
+  assert (H1 : transport (fst (step Tx cfg s o)) = false -> pend (fst (step Tx cfg s o)) = []).
+  { intro Hf. destruct (transport s) eqn:Ht.
+    - destruct (tx_step_transport cfg s o Ht Hf) as [c ->].
+      exact (proj1 (proj2 (lost_clears Tx cfg s c Ht (or_introl eq_refl)))).
+    - destruct (tx_step_no_transport_pend cfg s o Ht) as [E|E]; [congruence|]. rewrite E. now apply H0. }
+  destruct (step Tx cfg s o) as [s1 o1]. simpl in H1. specialize (IH s1 H1). destruct (run Tx cfg s1 t) as [s2 tr]. exact IH.
 Qed.
